@@ -528,6 +528,12 @@ func (gen *generator) irFuncHeader(new *ir.Func, old ast.FuncHeader) error {
 	ps := old.Params()
 	if oldParams := ps.Params(); len(oldParams) > 0 {
 		new.Params = make([]*ir.Param, len(oldParams))
+		// Unnamed parameters are numbered by position. An ID written in the
+		// source must be the one expected at that point (a repeated or
+		// misplaced %N is an error): the position, or the counter of
+		// LLParser::parseArgumentList in LLVM 14 (expectID), which an unnamed
+		// first parameter without an explicit ID does not advance.
+		var nextID, expectID int64
 		for i, oldParam := range oldParams {
 			// Type.
 			typ, err := gen.irType(oldParam.Typ())
@@ -536,9 +542,22 @@ func (gen *generator) irFuncHeader(new *ir.Func, old ast.FuncHeader) error {
 			}
 			// Name.
 			param := ir.NewParam("", typ)
-			if n, ok := oldParam.Name(); ok {
+			n, hasName := oldParam.Name()
+			if hasName {
 				ident := localIdent(n)
+				if ident.IsUnnamed() {
+					if ident.LocalID != nextID && ident.LocalID != expectID {
+						return errors.Errorf("invalid local ID of parameter %d in function %q, expected %s, got %s", i, new.Ident(), enc.LocalID(nextID), enc.LocalID(ident.LocalID))
+					}
+					ident.LocalID = nextID
+				}
 				param.LocalIdent = ident
+			}
+			if param.IsUnnamed() {
+				nextID++
+				if hasName || i > 0 {
+					expectID++
+				}
 			}
 			// (optional) Parameter attributes.
 			if oldParamAttrs := oldParam.Attrs(); len(oldParamAttrs) > 0 {
